@@ -11872,7 +11872,13 @@ loop:
 				return nil, false
 			}
 
-			// An unlabeled "break" inside a switch breaks out of the case
+			// An unlabeled "break" inside a switch breaks out of the case. What
+			// follows is dead, but hoisted declarations in it must not be lost.
+			for _, after := range stmts[i+1:] {
+				if shouldKeepStmtInDeadControlFlow(after) {
+					return nil, false
+				}
+			}
 			stmts = stmts[:i]
 			break loop
 
